@@ -1,3 +1,87 @@
-From HbsLms Require Import Base.Bytes Model.Counter.
-Theorem placeholder_C13 : sumN [] = 0%N.
-Proof. reflexivity. Qed.
+(* C13 -- leaf selection follows the reference's mixed-radix rule for every key shape.
+   Only statements; the proofs are in Proofs/CounterProofs.v. *)
+From HbsLms Require Import Base.Bytes Model.Consts Model.Counter Model.KeyBlob.
+From HbsLms Require Import Proofs.CounterProofs Gen.Generated.
+
+Local Open Scope N_scope.
+
+(* Level i, counted from the bottom, uses leaf (c / 2^(heights below it)) mod 2^(h_i):
+   every list of heights, every counter. *)
+Theorem C13_digit_rule :
+  forall (hs : list N) (c : N) (i : nat) (h : N),
+    nth_error (rev hs) i = Some h ->
+    nth_error (rev (leaf_digits hs c)) i
+    = Some ((c / 2 ^ sumN (firstn i (rev hs))) mod 2 ^ h).
+Proof. intros hs c i h E. rewrite rev_leaf_digits. exact (leaf_digits_rev_nth _ c i h E). Qed.
+
+(* The leaf tuple is the mixed-radix representation of the counter with the tree sizes as
+   radices, bottom level least significant. *)
+Theorem C13_mixed_radix :
+  forall (hs : list N) (c : N),
+    mr_value (rev hs) (rev (leaf_digits hs c)) = c mod 2 ^ sumN hs
+    /\ Forall2 (fun h q => q < 2 ^ h) (rev hs) (rev (leaf_digits hs c)).
+Proof.
+  intros hs c. rewrite rev_leaf_digits, <- (sumN_rev hs). split.
+  - apply leaf_digits_rev_value.
+  - apply leaf_digits_rev_bound.
+Qed.
+
+(* Hence two different counters below the capacity never select the same leaf tuple. *)
+Theorem C13_no_two_counters_share_a_leaf_tuple :
+  forall (hs : list N) (c1 c2 : N),
+    c1 < 2 ^ sumN hs -> c2 < 2 ^ sumN hs ->
+    leaf_digits hs c1 = leaf_digits hs c2 -> c1 = c2.
+Proof.
+  intros hs c1 c2 H1 H2 E. apply (f_equal (@rev N)) in E. rewrite !rev_leaf_digits in E.
+  rewrite <- (sumN_rev hs) in H1, H2. exact (leaf_digits_rev_inj _ _ _ H1 H2 E).
+Qed.
+
+(* Successor: c+1 until the last leaf, exhaustion (wipe) after it; total height <= 63. *)
+Theorem C13_successor :
+  forall (hs : list N) (c : N),
+    sumN hs <= 63 ->
+    incr hs c = if c <? 2 ^ sumN hs - 1 then Some (c + 1) else None.
+Proof. intros hs c H. apply incr_small. lia. Qed.
+
+(* Remaining lifetime = number of leaves minus the counter (saturating at the u64 range),
+   computed from the per-level state that key expansion leaves behind; never a panic. *)
+Theorem C13_lifetime :
+  forall (hs : list N) (c : N),
+    hs <> [] -> Forall (fun h => h <= 63) hs ->
+    lifetime hs c = Ok (N.min (2 ^ sumN hs - c mod 2 ^ sumN hs) u64_max).
+Proof. exact lifetime_closed. Qed.
+
+(* Taller lists (total height >= 64): the digit rule above is unconditional, and the key is
+   never reported exhausted before the 8-byte counter itself is. *)
+Theorem C13_tall_not_exhausted_early :
+  forall (hs : list N) (c : N),
+    64 <= sumN hs -> c < u64_max -> incr hs c = Some (c + 1).
+Proof. exact incr_tall. Qed.
+
+(* Every tree height the current source offers satisfies the side condition h <= 63. *)
+Theorem C13_source_heights_ok :
+  forallb (fun row => (snd (snd row)) <=? 63) (c_lms_construct K_src) = true.
+Proof. vm_compute. reflexivity. Qed.
+
+(* Non-vacuity: a concrete mixed-height key (H5 / H10 / H2) at a radix boundary. *)
+Example ex_C13_concrete :
+  leaf_digits [5; 10; 2] 4096 = [1; 0; 0]
+  /\ lifetime [5; 10; 2] 4096 = Ok (131072 - 4096)
+  /\ incr [5; 10; 2] 131071 = None /\ incr [5; 10; 2] 131070 = Some 131071.
+Proof. vm_compute. repeat split. Qed.
+
+Check C13_digit_rule :
+  forall (hs : list N) (c : N) (i : nat) (h : N),
+    nth_error (rev hs) i = Some h ->
+    nth_error (rev (leaf_digits hs c)) i = Some ((c / 2 ^ sumN (firstn i (rev hs))) mod 2 ^ h).
+Check C13_lifetime :
+  forall (hs : list N) (c : N),
+    hs <> [] -> Forall (fun h => h <= 63) hs ->
+    lifetime hs c = Ok (N.min (2 ^ sumN hs - c mod 2 ^ sumN hs) u64_max).
+
+Print Assumptions C13_digit_rule.
+Print Assumptions C13_mixed_radix.
+Print Assumptions C13_no_two_counters_share_a_leaf_tuple.
+Print Assumptions C13_successor.
+Print Assumptions C13_lifetime.
+Print Assumptions C13_tall_not_exhausted_early.
